@@ -17,6 +17,8 @@ From WM Require Import Base.Prelude Message.Model Handler.RouterHandle Handler.R
 
 From WM Require GoChannel.Compose Pipeline.ComposeRefine.
 
+From WM Require Router.Wiring Router.WiringSpec Pipeline.OwnProofs.
+
 Section C01.
   Context {M : Type}.
   Variable hf : nat -> M -> list M.
@@ -292,6 +294,23 @@ Print Assumptions C01_gochannel_refines_topic.
 Print Assumptions C01_gochannel_no_loss_before_ack.
 Print Assumptions C01_gochannel_redelivers_after_nack.
 Print Assumptions C01_gochannel_one_in_flight.
+
+(** ** middleware ownership on the pipeline's Router(s) (C09's statement, used as a C01 monitor): what
+    the wiring model enters for a handler - the router-level middlewares and the handler's OWN, in
+    registration order - is accepted by [mw_own_ok], and an accepted call entered no middleware of
+    another handler, whatever that handler's name (the empty name included): no foreign
+    error-swallowing / instant-ack middleware can decide about a stage's message *)
+Theorem C01_middleware_ownership_model_accepted : forall regs name,
+  mw_own_ok (regs, name, map Wiring.r_id (WiringSpec.effective name regs)) = true.
+Proof. exact OwnProofs.mw_own_model_accepted. Qed.
+
+Theorem C01_middleware_ownership_sound : forall regs name ran, mw_own_ok (regs, name, ran) = true ->
+  forall id, In id ran ->
+  exists r, In r regs /\ Wiring.r_id r = id
+            /\ (Wiring.r_router r = true \/ Wiring.r_hname r = name).
+Proof. exact OwnProofs.mw_own_sound. Qed.
+Print Assumptions C01_middleware_ownership_model_accepted.
+Print Assumptions C01_middleware_ownership_sound.
 
 (** the fairness hypothesis is satisfiable: every finite script has it *)
 Theorem C01_finite_scripts_are_fair : forall k (l : list (list fault)), eventually_clean k (sc_of l).
